@@ -45,7 +45,11 @@ func cloneToks(ts hclwrite.Tokens) hclwrite.Tokens {
 	return out
 }
 
-func c09Case(ts hclwrite.Tokens) (string, error) {
+func c09Case(ts hclwrite.Tokens) (string, error) { return c09CaseOpt(ts, true) }
+
+// c09CaseOpt: render=false skips printing the Coq term (cases too big for the Coq side); the
+// real formatter is run and checked for touching nothing but SpacesBefore either way.
+func c09CaseOpt(ts hclwrite.Tokens, render bool) (string, error) {
 	in := cloneToks(ts)
 	var panicked any
 	func() {
@@ -57,7 +61,9 @@ func c09Case(ts hclwrite.Tokens) (string, error) {
 	}
 	items := make([]string, len(in))
 	for i, t := range in {
-		items[i] = coqTok(t)
+		if render {
+			items[i] = coqTok(t)
+		}
 	}
 	sp := make([]int, len(ts))
 	for i, t := range ts {
@@ -123,7 +129,7 @@ func checkHeld() (string, string) {
 	for _, h := range held {
 		if !bytes.Equal(h.out, h.snapshot) {
 			return "format-result-changed-by-later-call",
-				fmt.Sprintf("the result of an earlier Format(%q) read %q when returned and reads %q after later Format calls", h.src, h.snapshot, h.out)
+				fmt.Sprintf("the result of an earlier Format(%s) read %s when returned and reads %s after later Format calls", brief([]byte(h.src)), brief(h.snapshot), brief(h.out))
 		}
 	}
 	return "", ""
@@ -302,13 +308,14 @@ var linePool = []string{
 
 func runC09(cfg *hv.RunCfg) error {
 	rep := hv.NewReport("C09", cfg.Seed)
-	rep.Rule = "configurations from the grammar-directed generator in 4 wildness levels (spacing, tabs, CRLF, comments in every legal position, heredocs, templates) + hand corpus; plus arbitrary token sequences fed to the formatter directly; non-trivial = at least 4 tokens and at least one space decision; distinct by SHA-256 of the input"
+	rep.Rule = "configurations from the grammar-directed generator in 4 wildness levels (spacing, tabs, CRLF, comments in every legal position, heredocs, templates) + hand corpus; plus arbitrary token sequences fed to the formatter directly; non-trivial = at least 4 tokens and at least one space decision; distinct by SHA-256 of the input; SIZE stream (stream:big, ~3 % of the cases): ONE or TWO tokens of a generated configuration inflated to 500-1100 / 4000-4200 / 8191-8193 / 32767-32769 / 65535-65537 / 1 MiB bytes (string literal, template literal beside interpolations, heredoc line, heredoc marker, block and line comment, identifier, number, run of spaces between tokens) first / in the middle / last in the file, files of 5,000-50,000 ordinary tokens, nesting 40-300 levels deep; every case also goes through Tokens.Bytes/WriteTo, Format, File.Bytes/WriteTo (counting and short-writing writers) against an independent reference serialisation; the Coq correspondence receives only the cases whose token bytes total <= 2600 and that have <= 2000 tokens (the ordinary streams stay below that; histogram coq:not-sent(size) counts the rest, which are checked by the direct oracle only - the Coq theorems quantify over all token lists)"
 	r := hv.NewRng(cfg.Seed, 9)
 	cf := &hv.CaseFile{Dir: cfg.Out, Name: "c09cases",
 		Imports: "From Coq Require Import String.\nFrom HclV Require Import Base.Prelude Write.Format Write.FormatCheck.",
 		Ctype:   "list tok * list Z", Checker: "check_format_cases"}
 
 	var srcs []string
+	bigLabels := map[int][]string{} // index into srcs -> histogram labels of the SIZE stream
 	if cfg.Replay != "" {
 		b, err := os.ReadFile(cfg.Replay)
 		if err != nil {
@@ -348,22 +355,62 @@ func runC09(cfg *hv.RunCfg) error {
 			}
 			srcs = append(srcs, s)
 		}
+		// SIZE stream (big.go): single tokens of 4 KiB .. 1 MiB, files of 5,000-50,000 tokens, nesting
+		// up to 300 levels, runs of thousands of spaces in the input. Own PRNG stream: the cases above
+		// stay what they were.
+		rb := hv.NewRng(cfg.Seed, 94)
+		bigHugeNumbers = cfg.Tier == "thorough" // a megabyte of digits costs ~10 s per case in math/big
+		for _, s := range c09BigCorpus() {
+			bigLabels[len(srcs)] = []string{"big:hand-corpus"}
+			srcs = append(srcs, s)
+		}
+		nbig := cfg.N * 3 / 100
+		if nbig < 12 {
+			nbig = 12
+		}
+		for i := 0; i < nbig; i++ {
+			s, ls := genBig(rb)
+			bigLabels[len(srcs)] = append(ls, "stream:big")
+			srcs = append(srcs, s)
+		}
 	}
-	for _, s := range srcs {
+	for si, s := range srcs {
 		src := []byte(s)
 		toks := hclwrite.VerifLexConfig(src)
-		cs, err := c09Case(toks)
+		for _, l := range bigLabels[si] {
+			rep.Hist(l)
+		}
+		if len(bigLabels[si]) > 0 {
+			for _, l := range observedSizeLabels(toks, parsesOK(s)) {
+				rep.Hist(l)
+			}
+		}
+		// the Coq correspondence gets the cases of ordinary size only (see coqMaxTokBytes in big.go)
+		toCoq := tokBytesTotal(toks) <= coqMaxTokBytes && len(toks) <= coqMaxToks
+		cs, err := c09CaseOpt(toks, toCoq)
 		if err != nil {
 			rep.Fail(hv.Failure{Kind: "format-panic-or-mutation", Detail: err.Error(), Input: s})
 			continue
 		}
-		cf.Add(cs)
-		rep.Idx(s)
+		if toCoq {
+			cf.Add(cs)
+			rep.Idx(s)
+		} else {
+			rep.Hist("coq:not-sent(size)")
+		}
 		rep.Count(s, len(toks) >= 4)
 		if len(s) < 120 {
 			rep.Sample(s)
 		}
 		kind, detail := c09Oracle(src)
+		if kind == "" {
+			// writer-side entry points against the independent reference serialisation; values (big.go)
+			valid := parsesOK(s)
+			kind, detail = c09WriterOracle(src, valid)
+			if kind == "" && valid {
+				kind, detail = c09ValuesOracle(src, hclwrite.Format(append([]byte(nil), src...)))
+			}
+		}
 		if kind != "" {
 			rep.Fail(hv.Failure{Kind: kind, Detail: detail, Input: s})
 			rep.Hist("oracle-fail:" + kind)
